@@ -359,7 +359,7 @@ func coordinate(c *vc.Ctx, cases []Case) {
 	c.Extra["transitions"] = transitions
 	c.Extra["schedules"] = schedules
 	c.Extra["traces_validated_against_impl"] = schedules
-	c.Extra["programs"] = rows
+	c.Extra["program_table"] = rows
 	c.Extra["programs_with_single_outcome"] = oneOutcome
 	c.Extra["states_meaning"] = "distinct (program, observable outcome) pairs; transitions = scheduling points executed on the real interpreter; every schedule is an execution of the real code, so traces validated = schedules"
 	c.Finish(complete)
